@@ -91,6 +91,8 @@ func runC18(c *Ctx) {
 		c.Fail("EFFECT-WHITELIST", "anchor", token.NoPos, "bufimagemodify packages not found")
 		return
 	}
+	c18DFA(c)
+	c18PathScope(c, pk)
 	info := pk.TypesInfo
 	fileOptNums := descriptorFieldNumbers(p, "FileOptions")
 	fieldOptNums := descriptorFieldNumbers(p, "FieldOptions")
@@ -529,4 +531,67 @@ func runC18(c *Ctx) {
 // errNilTestAny is errNilTest without the error-type restriction.
 func errNilTestAny(info *types.Info, cond ast.Expr) (types.Object, bool, bool) {
 	return errNilTest(info, cond)
+}
+
+
+// c18PathScope (PATH-SCOPE, added after seeded change C18-b): a disable or override rule scoped to a path applies to
+// that file or directory, decided path-wise: fileMatchConfig tests normalpath.EqualsOrContainsPath(rule path, file
+// path) and nothing in the package compares a file path by string prefix (`foo` would also govern `foobar/x.proto`).
+func c18PathScope(c *Ctx, pk *packages.Package) {
+	const rule = "PATH-SCOPE"
+	c.Rule(rule, "path-scoped rules match path-wise (EqualsOrContainsPath), never by string prefix", 2)
+	p := c.P
+	info := pk.TypesInfo
+	fm := p.Func("private/bufpkg/bufimage/bufimagemodify", "fileMatchConfig")
+	if fm == nil {
+		c.Fail(rule, "fileMatchConfig", token.NoPos, "not found")
+		return
+	}
+	var reqPath types.Object
+	for _, fl := range fm.Decl.Type.Params.List {
+		for _, nm := range fl.Names {
+			if nm.Name == "requiredPath" {
+				reqPath = info.Defs[nm]
+			}
+		}
+	}
+	okCall := false
+	ast.Inspect(fm.Decl.Body, func(n ast.Node) bool {
+		call, ok := n.(*ast.CallExpr)
+		if !ok {
+			return true
+		}
+		if fn := Callee(info, call); fn != nil && calleeIs(fn, "private/pkg/normalpath", "EqualsOrContainsPath") && len(call.Args) >= 2 {
+			if identObj(info, call.Args[0]) == reqPath && reqPath != nil && strings.HasSuffix(exprString(call.Args[1]), ".Path()") {
+				// and it is a negated guard of `return false`
+				if ue, ok := p.Parent(call).(*ast.UnaryExpr); ok && ue.Op == token.NOT {
+					okCall = true
+				}
+			}
+		}
+		return true
+	})
+	c.Ob(rule, "fileMatchConfig/path-wise", fm.Decl.Pos(), okCall, true, "a file is rejected when !EqualsOrContainsPath(requiredPath, imageFile.Path()): %v", okCall)
+	n := 0
+	for _, fr := range p.FuncsOf(pk) {
+		if fr.Decl.Body == nil {
+			continue
+		}
+		ast.Inspect(fr.Decl.Body, func(x ast.Node) bool {
+			call, ok := x.(*ast.CallExpr)
+			if !ok || len(call.Args) != 2 {
+				return true
+			}
+			fn := Callee(info, call)
+			if fn == nil || fn.Pkg() == nil || fn.Pkg().Path() != "strings" || (fn.Name() != "HasPrefix" && fn.Name() != "HasSuffix" && fn.Name() != "Contains") {
+				return true
+			}
+			if strings.Contains(exprString(call.Args[0]), "Path()") || strings.Contains(strings.ToLower(exprString(call.Args[1])), "path") {
+				n++
+				c.Ob(rule, fr.ID()+"/strings."+fn.Name(), call.Pos(), false, true, "strings.%s(%s, %s) decides a path scope by string prefix", fn.Name(), exprString(call.Args[0]), exprString(call.Args[1]))
+			}
+			return true
+		})
+	}
+	c.Ob(rule, "no-string-prefix-on-paths", token.NoPos, n == 0, true, "%d string-prefix tests on file paths in bufimagemodify", n)
 }
